@@ -105,6 +105,9 @@ pub(crate) struct RustField {
   /// The CBOR tag this field's CDDL type carries, if any (see
   /// https://github.com/anweiss/cddl/issues/639).
   pub tag: Option<TaggedPrelude>,
+  /// `true` when the field has no CDDL member key of its own (a wildcard
+  /// `entries` map or a keyless `value`), so `original_name` is not a wire name.
+  pub is_synthetic: bool,
 }
 
 /// A CDDL prelude type that is defined as a CBOR tag wrapping a simpler value.
@@ -977,10 +980,11 @@ fn group_to_fields(
 /// the same field twice and fail to compile with "field `entries` specified
 /// more than once". Repeats get a `_1`, `_2`, ... suffix.
 ///
-/// When a field's `original_name` matches the name being replaced, the field is
-/// synthetic (there is no corresponding CDDL key) and the `original_name` is
-/// renamed alongside it, so that no misleading `#[serde(rename = "entries")]`
-/// is emitted for the second and subsequent fields.
+/// When the field is synthetic (there is no corresponding CDDL key) the
+/// `original_name` is renamed alongside it, so that no misleading
+/// `#[serde(rename = "entries")]` is emitted for the second and subsequent
+/// fields. A field that does have a CDDL key (`a-b` next to `a_b`) keeps its
+/// `original_name`, so the renamed field still reads and writes that key.
 ///
 /// See https://github.com/anweiss/cddl/issues/640
 fn deduplicate_field_names(fields: &mut [RustField]) {
@@ -993,7 +997,7 @@ fn deduplicate_field_names(fields: &mut [RustField]) {
 
     if *count > 1 {
       let unique = format!("{}_{}", base, *count - 1);
-      if field.original_name == base {
+      if field.is_synthetic {
         field.original_name = unique.clone();
       }
       field.name = unique;
@@ -1053,6 +1057,7 @@ fn group_entry_to_fields(
         doc,
         is_boxed: false,
         tag: tagged_prelude(ident),
+        is_synthetic: false,
       }]))
     }
     GroupEntry::InlineGroup { group, occur, .. } => {
@@ -1097,6 +1102,7 @@ fn value_member_key_to_field(
         doc,
         is_boxed: false,
         tag: None,
+        is_synthetic: true,
       }));
     }
     None => {
@@ -1109,6 +1115,7 @@ fn value_member_key_to_field(
         doc,
         is_boxed: false,
         tag: type_tagged_prelude(&vmke.entry_type),
+        is_synthetic: true,
       }));
     }
     _ => return Ok(None),
@@ -1148,6 +1155,7 @@ fn value_member_key_to_field(
     } else {
       type_tagged_prelude(&vmke.entry_type)
     },
+    is_synthetic: false,
   }))
 }
 
